@@ -1,25 +1,67 @@
 /-
   C19 — accepted parameters are sound; shipped sets meet their 128-bit security claim.
 
-  All theorems are about the definitions of `Lattigo.Model.Params` that the driver executes
-  (`newParametersFromLiteral`, `newParameters`, `genModuli`, `bgvNew`, `withinTable`, …), for every
-  oracle `o : Oracle` (primality test + the generator's two float comparisons) unless stated.
+  Files: this one (constructors, GenModuli, bgv, exported sets, derived quantities of the hand model),
+  `Props/C19Primes.lean` (the prime generator itself, all three directions), `Props/C19Codec.lean` (the codecs), `Props/C19Gen.lean` (the derived
+  quantities REGENERATED from core/rlwe/params.go by tools/go2lean — not by the owner of this file).
+  All theorems are about the definitions of `Lattigo.Model.Params` that the driver executes, for every oracle
+  `o : Oracle` (primality test + the generator's two float comparisons) unless stated. The model follows /repo
+  with the fixes /verif/fixes/C19-1 … C19-13 applied.
 
-  The model follows /repo WITH the fixes /verif/fixes/C19-1 … C19-6 applied.  The six defects
-  these fixes remove were theorems of this file before (`accepted_sound_counterexample_bits`,
-  `…_shared`, `rejected_no_panic_counterexample_panic`, `…_hang`, `bgv_qmul_counterexample`,
-  `genModuli_spec_counterexample`); their witnesses are now `example`s of *rejection*, and the
-  main statements hold at full strength:
-    * `accepted_sound`      Q ∪ P pairwise distinct primes, ≡ 1 mod NthRoot, < 2^61 (⇒ 8q ≤ 2^64)
-    * `rejected_no_panic`   every literal, with or without size requests: accept or `err`
-    * `genModuli_spec`      no precondition on the sizes any more (enforced by the code)
-    * `bgv_accepted`        the auxiliary basis is disjoint from Q
-  Still open (known findings, not fixed): `exported_above_table` — three shipped bootstrapping
-  default literals are above the table / not instantiable as shipped.
+  PROVED FOR ALL INPUTS
+    acceptance
+      `decision_table`            rlwe.NewParameters accepts (warnings aside) ⇔ `Requirements` (degree range, ring type,
+                                  non-empty Q, Q ∪ P duplicate-free, each modulus prime for the oracle, ≡ 1 mod NthRoot, < 2^61)
+      `literal_decision_table`    the same for NewParametersFromLiteral with explicit moduli
+      `ckks_decision_table`       ckks.NewParametersFromLiteral ⇔ rlwe acceptance ∧ LogDefaultScale ≤ 128
+      `bgv_decision_table`        bgv.NewParameters returns b ⇔ t ≠ 0, t ∉ Q, t ≤ Q[0], the auxiliary-basis generator returns
+                                  b.qMul and it is a ring of degree N, order(t) ≥ 16, b.nT = min(N, order/2) is a ring with modulus t
+      `ring_decision_table`       ring.NewRingWithCustomNTT succeeds ⇔ N ≥ 8 power of two, chain non-empty, duplicate-free,
+                                  every modulus a non-zero prime with m & (NthRoot−1) = 1
+      `accepted_sound`            (needs a sound primality oracle) accepted ⇒ Q ∪ P pairwise distinct primes, ≡ 1 mod NthRoot,
+                                  bit length ≤ 61, 8m ≤ 2^64
+      `bgv_accepted`              accepted t is prime, not in Q, ≤ Q[0], t ≡ 1 mod 2·nT, nT ≥ 8; QMul primes ≡ 1 mod 2N, none in Q
+    rejection
+      `never_panics`              no literal, oracle, fuel gives `panic`
+      `rejected_no_panic_explicit` explicit moduli: accept or `err`, any oracle, any fuel; violated requirement ⇒ `err`
+      `params_revalidate`         an accepted object's own literal is accepted again and gives the same object
+    moduli generation
+      `genModuli_spec`, `genModuli_total`, and in C19Primes `genPrimes_spec`, `genPrimes_order`, `genPrimes_total`
+    codecs (`Props/C19Codec.lean`: model of the JSON field lists; MarshalBinary = JSON)
+      `dist_roundtrip`, `rlweLit_roundtrip` (up to empty-slice ≡ nil, what `omitempty` cannot express),
+      `btp_roundtrip`, `btpLit_roundtrip` (exact, zero values and nil pointers included)
+    derived quantities (hand model; the regenerated ones are in C19Gen)
+      `overflowMargin_sound`, `qiOverflowMargin_sound`, `baseRNS_def`, `baseTwo_def`, `galoisElement_def`,
+      `modInvGaloisElement_def`, `derived_defs`, `accepted_logNthRoot`
+    exported sets (statements about today's literals, dumped from the real code and tied by `exported … known=1`)
+      `exported_within_table`, and the five known findings as counterexamples: `exported_above_table` (three sets
+      above the table), `n15_defaults_not_instantiable` (two sets whose residual chain fails the root-order check)
+
+  PROVED UNDER A NAMED HYPOTHESIS
+    `rejected_no_panic`, `genModuli_total`, `genPrimes_total`  termination needs `StopComplete o` (the float stop tests
+        fire outside the half-bit window) and `fuel ≥ 2^65`
+    `genModuli_spec`, `genPrimes_spec`, `genPrimes_order`      need `StopSound o` (the float tests are read exactly)
+    Both hold for `exactOracle` (`exactOracle_stopSound`, `exactOracle_stopComplete`); for the double-precision port
+    `goOracle` they are NOT discharged (no Float reasoning in the kernel) — the run-time probe `genmoduli_spec`
+    checks the exact window on every modulus the real generator returns.
+    `accepted_sound`, `genModuli_spec`, `bgv_accepted`, `genPrimes_spec` use `PrimeSound o`; the driver's Miller–Rabin
+    test is tied to `ring.IsPrime` (`isprime` lines) but not proved equal to `Nat.Prime`.
+
+  TIED ONLY (model = implementation on the explored inputs): ops `rlwe_new`, `rlwe_direct`, `ckks_new`, `bgv_new`,
+    `gen`, `genmoduli`, `overlap`, `isprime`, `derived`, `accessors`, `exported`, `table`, `codec_keys`
+    (the decode side of the codecs and the text codecs of Scale / nested parameter objects are covered by the
+    round-trip PROBES on the real code, not by the model).
+  PROBES ONLY: accepted_then_ntt_roundtrip / accepted_then_bgv_arithmetic / bgv_context_works / accepted_dist_usable
+    (the accepted context computes correctly), accessor_aliases, codec_roundtrip, equal_discriminates,
+    rejects_logN_out_of_range, bgv_rejects_t_dividing_Q, exported_instantiable.
+  NOT COVERED: that the table's figures give 128-bit security (estimator output, `spec/security_table.json` records
+    provenance); encryption/decryption correctness of an accepted context is C03/C07's subject (here: probes).
 -/
 import Lattigo.Proofs.Params
 import Lattigo.Proofs.ParamsGen
 import Lattigo.Proofs.ParamsTerm
+import Lattigo.Props.C19Primes
+import Lattigo.Props.C19Codec
 import Lattigo.Props.C19Gen
 
 namespace Lattigo.Params
@@ -72,6 +114,58 @@ example : newParametersFromLiteral exactOracle 10 { logN := 4, q := some [97], p
 theorem decision_table (o : Oracle) (logN : Int) (q p : List Nat) (rt : Nat) :
     (∃ a, newParameters o logN q p rt false false = .ok a) ↔ Requirements o logN q p rt :=
   ⟨fun ⟨_, h⟩ => requirements_of_ok h, fun h => ⟨_, newParameters_complete h⟩⟩
+
+/-- **literal_decision_table** — `NewParametersFromLiteral` on a literal with explicit moduli (no size requests, no
+    zero-weight / zero-deviation warning) accepts exactly when the literal's lists meet `Requirements`
+    (a nil `Q` is the empty chain and fails `q ≠ []`). -/
+theorem literal_decision_table (o : Oracle) (fuel : Nat) (lit : Literal)
+    (hq : lit.logQ = none) (hp : lit.logP = none) (hw : lit.xsWeight0 = false) (hs : lit.xeStd0 = false) :
+    (∃ a, newParametersFromLiteral o fuel lit = .ok a) ↔
+      Requirements o lit.logN (lit.q.getD []) (lit.p.getD []) lit.ringType := by
+  cases hq' : lit.q with
+  | none =>
+    constructor
+    · intro ⟨a, ha⟩
+      exfalso
+      unfold newParametersFromLiteral at ha
+      simp [hq, hq'] at ha
+    · intro hreq
+      exact absurd rfl hreq.q_ne
+  | some ql =>
+    have key : newParametersFromLiteral o fuel lit =
+        newParameters o lit.logN ql (lit.p.getD []) lit.ringType false false := by
+      unfold newParametersFromLiteral
+      simp [hq, hp, hw, hs, hq']
+    rw [key]
+    simp only [Option.getD_some]
+    exact ⟨fun ⟨a, ha⟩ => requirements_of_ok ha, fun hreq => ⟨_, newParameters_complete hreq⟩⟩
+
+example : ∃ a, newParametersFromLiteral exactOracle 10 { logN := 4, q := some [97], p := some [193] } = .ok a :=
+  ⟨{ logN := 4, q := [97], p := [193], ringType := 0 }, by decide +kernel⟩
+
+/-- **ring_decision_table**, **ckks_decision_table**, **bgv_decision_table** — the remaining constructors as equivalences
+    (statements and proofs in `Proofs/Params.lean`: `newRing_iff`, `ckks_decision`, `bgv_decision`). -/
+theorem ring_decision_table {o : Oracle} {n r : Nat} {ms : List Nat} :
+    newRing o n ms r = none ↔
+      MinRingDegree ≤ n ∧ isPow2 n = true ∧ ms ≠ [] ∧ ms.Nodup ∧
+      ∀ m ∈ ms, m ≠ 0 ∧ o.isPrime m = true ∧ m &&& (r - 1) = 1 := newRing_iff
+
+theorem ckks_decision_table (o : Oracle) (fuel : Nat) (lit : Literal) (lds : Int) (a : Accepted) :
+    ckksNewFromLiteral o fuel lit lds = .ok a ↔ newParametersFromLiteral o fuel lit = .ok a ∧ lds ≤ 128 :=
+  ckks_decision o fuel lit lds a
+
+theorem bgv_decision_table (o : Oracle) (fuel : Nat) (a : Accepted) (t : Nat) (b : BgvAccepted) :
+    bgvNew o fuel a t = .ok b ↔
+      t ≠ 0 ∧ t ∉ a.q ∧ t ≤ a.q.headD 0 ∧
+      qmulLoop o fuel a.q ((len64 a.qProd + a.logN + 60) / 61 + a.q.length + 1)
+        ((len64 a.qProd + a.logN + 60) / 61) (newGen 61 a.nthRoot) = .ok b.qMul ∧
+      newRing o a.n b.qMul (2 * a.n) = none ∧
+      16 ≤ cyclotomicOrder t ∧ b.nT = min a.n (cyclotomicOrder t / 2) ∧
+      newRing o b.nT [t] (2 * b.nT) = none := bgv_decision o fuel a t b
+
+/-- both sides of `bgv_decision_table` are inhabited (`t = 17`, plaintext ring of degree 8) -/
+example : bgvNew exactOracle 100000 { logN := 6, q := [786433], p := [], ringType := 0 } 17
+    = .ok { nT := 8, qMul := [2305843009213689601] } := by decide +kernel
 
 /-- **never_panics** — no literal whatsoever makes the constructor panic (any oracle, any fuel). -/
 theorem never_panics (o : Oracle) (fuel : Nat) (lit : Literal) :
@@ -350,6 +444,21 @@ theorem accepted_logNthRoot (o : Oracle) (fuel : Nat) (lit : Literal) (a : Accep
     omega
   omega
 
+/-! ## the two shipped defaults that cannot be instantiated -/
+
+/-- **n15_defaults_not_instantiable** — known findings `C19-exported-not-instantiable:bootstrapping.N15QP768H192H32` and
+    `…N15QP880H16384H32` as statements about the model: the residual chains of these two shipped default sets (members
+    of `exportedSets`, i.e. what the real constructor generates for `SchemeParams`, logN = 15) fail the root-order check
+    of `bootstrapping.NewParametersFromLiteral` when the bootstrapping literal leaves `LogN` at its default 16
+    (`NthRoot = 2^17`): the first offending primes are `Q[0]` and `Q[3]`, as the real error messages say.
+    With `LogN = 15` the check passes — but then the sets are above the table (`exported_above_table`). -/
+theorem n15_defaults_not_instantiable :
+    (∃ s ∈ exportedSets, s.logN = 15 ∧ s.q = [8589475841, 1125899908022273, 33292289] ∧
+      btpResidualCheck 15 0 16 s.q = some 0 ∧ btpResidualCheck 15 0 15 s.q = none) ∧
+    (∃ s ∈ exportedSets, s.logN = 15 ∧ s.q = [1099512938497, 2147352577, 2146959361, 2148728833, 2148794369] ∧
+      btpResidualCheck 15 0 16 s.q = some 3 ∧ btpResidualCheck 15 0 15 s.q = none) := by
+  decide +kernel
+
 /-! ### overflow margins -/
 
 theorem foldl_max_ge (l : List Nat) : ∀ (acc x : Nat), (x ∈ l ∨ x ≤ acc) → x ≤ l.foldl max acc := by
@@ -533,6 +642,11 @@ end Lattigo.Params
 
 #print axioms Lattigo.Params.accepted_sound
 #print axioms Lattigo.Params.decision_table
+#print axioms Lattigo.Params.literal_decision_table
+#print axioms Lattigo.Params.ring_decision_table
+#print axioms Lattigo.Params.ckks_decision_table
+#print axioms Lattigo.Params.bgv_decision_table
+#print axioms Lattigo.Params.n15_defaults_not_instantiable
 #print axioms Lattigo.Params.never_panics
 #print axioms Lattigo.Params.rejected_no_panic
 #print axioms Lattigo.Params.rejected_no_panic_explicit
